@@ -111,6 +111,20 @@ pub fn run(ctx: &Ctx, rep: &mut Report) {
         // shared pool of texts (on purpose: the same lazily initialised tables are first touched by several threads at once)
         let n_texts = if miri { 6 } else { 60 };
         let mut texts: Vec<String> = (0..n_texts).map(|i| if i % 5 == 0 { format!("{}ア1,000カカa1", textgen::text_from_keys(&mut rng, &keys, 3)) } else { textgen::text_from_keys(&mut rng, &keys, 8) }).collect();
+        // a few texts full of distinct characters with multi-character normal forms (squared katakana, enclosed
+        // letters, ligatures): whatever the normaliser keeps between calls is exercised with many different keys
+        if !miri {
+            for k in 1..5.min(texts.len()) {
+                let mut s = String::new();
+                for _ in 0..120 {
+                    let cp = *rng.pick(&[0x3300u32, 0x3200, 0x3280, 0xfb00, 0x2460, 0x24b6, 0x3250, 0x32c0]) + rng.below(0x50) as u32;
+                    if let Some(c) = char::from_u32(cp) {
+                        s.push(c);
+                    }
+                }
+                texts[k] = s;
+            }
+        }
         // text 0 exercises every input-text plugin at once: all threads analyse it first, so whatever is
         // initialised on first use is initialised under contention
         texts[0] = format!("東京(とうきょう)ＡＢスーーーパー㍿京（キョウ）{}", texts[0]);
